@@ -21,14 +21,6 @@ import Fbr.Lemmas.OvlAttr
 
 namespace Fbr.Ovl
 
-/-- every ancestor of a node of the forest is in the forest -/
-theorem mem_suffix_closed {s : St} (hc : Consistent s) : ∀ (l : List Name) (q : Path) (m : MNode),
-    s.mem (l ++ q) = some m → ∃ m', s.mem q = some m'
-  | [], _, m, h => ⟨m, h⟩
-  | c :: l, q, m, h => by
-    obtain ⟨pm, hpm, _⟩ := hc.reach c (l ++ q) m h
-    exact mem_suffix_closed hc l q pm hpm
-
 /-- a non-directory node is not an ancestor of (nor equal to) a directory node -/
 theorem nondir_not_ancestor {s : St} (hc : Consistent s) {src pp : Path} {sm pm : MNode}
     (hsm : s.mem src = some sm) {r : Real} {rest : List Real} (hr : sm.reals = r :: rest)
